@@ -34,6 +34,8 @@ from asphalt.core import (
     add_teardown_callback,
     current_context,
     get_resource,
+    inject,
+    resource,
     start_component,
     start_service_task,
 )
@@ -166,6 +168,26 @@ def all_subs(plan: dict) -> list:
                 elif a_[0] == "svc" and a_[1].get("later_sub"):
                     out.append((p_, "service", a_[1]["later_sub"]))
     return out
+
+
+_INJ_CACHE: dict[tuple, Any] = {}
+
+
+def _injected_lookup(t: type, name: str, optional: bool) -> Any:
+    """An @inject-decorated coroutine function with one dependency (type t, resource `name`,
+    Optional or not)."""
+    from typing import Optional as _Optional
+
+    key = (t, name, optional)
+    if key not in _INJ_CACHE:
+
+        async def dep(*, r=resource(name)):  # type: ignore[no-untyped-def]
+            return r
+
+        dep.__annotations__ = {"r": _Optional[t] if optional else t}
+        dep.__qualname__ = f"dep_{t.__name__}_{name}_{int(optional)}"
+        _INJ_CACHE[key] = inject(dep)
+    return _INJ_CACHE[key]
 
 
 def sub_model(spec: dict) -> dict:
@@ -548,6 +570,10 @@ class H:
                     sim.fault("wait_given_up")
                     sim.log("wait_end", wid=wid, path=path, out="gaveup", val=None)
                     return
+            elif spec.get("via") == "inject":
+                # the dependency is declared on an @inject-ed coroutine function called from
+                # the phase (as one would decorate start() itself): equivalent to the lookup
+                v = await _injected_lookup(t, name, bool(spec.get("opt")))()
             elif spec.get("opt"):
                 v = await get_resource(t, name, optional=True)
             else:
@@ -606,8 +632,13 @@ class H:
                 if spec.get("action") == "none":
                     # nobody stops this task: it ends by itself a little after the calling
                     # context's block has ended, and teardown has to wait for that
-                    await h.block_ended.wait()
-                    await anyio.sleep(spec.get("tail", 1.0))
+                    try:
+                        await h.block_ended.wait()
+                        await anyio.sleep(spec.get("tail", 1.0))
+                    except BaseException as e:
+                        if is_cancel(e):
+                            sim.log("svc_cancelled", svc=name, action="none", block_ended=h.block_ended.is_set())
+                        raise
                 else:
                     await anyio.sleep(1e6)
             finally:
@@ -624,7 +655,9 @@ class H:
         sim = self.sim
         assert self.real is not None
         cur = current_context()
-        c = Context()
+        # (explicitly naming the current context as parent is the same thing)
+        c = Context(cur) if self.ndecoy % 2 else Context()
+        self.ndecoy += 1
         views_equal = True
         diff = None
         for t in RT:
@@ -843,7 +876,7 @@ def make_main(plan: dict):
                                 break
                             names_ = [getattr(t_, "__name__", str(t_)) for t_ in ev.resource_types]
                             if all(n_.startswith("T") and n_[1:].isdigit() for n_ in names_):
-                                sim.log("res_event", types=names_, name=ev.resource_name, is_factory=ev.is_factory, round=rnd)
+                                sim.log("res_event", types=names_, name=ev.resource_name, is_factory=ev.is_factory, desc=ev.resource_description, round=rnd)
                     sim.log("block_end", round=rnd)
                     h.block_ended.set()
             except BaseException as e:
@@ -1512,7 +1545,10 @@ def oracle(sim: Sim, plan: dict) -> list[dict]:
                 ann = [e for e in mine if e["is_factory"] == d["fac"]]
                 if len(ann) != 1:
                     v("C18.events", "component_publication", f"publication {d['rid']} by {d['path']} was announced {len(ann)} times on the calling context (events for its types: {mine})")
+                want_desc = (spec or {}).get("desc") or None
                 for e in mine:
+                    if e.get("desc") != want_desc:
+                        v("C18.events", "component_description", f"publication {d['rid']} by {d['path']} was registered with description {want_desc!r} but announced with {e.get('desc')!r}")
                     if e["name"] != want_name:
                         v("C18.events", "component_remap", f"publication {d['rid']} by {d['path']} ({d['phase']}) is registered as {want_name!r} but was announced as {e['name']!r}")
 
@@ -1582,6 +1618,10 @@ def oracle(sim: Sim, plan: dict) -> list[dict]:
                 if r[4] == "svc_start" and not (r[5]["parent_is_real"] and r[5]["fresh"]):
                     v("C12.task", "svc_parent", f"service task {r[5]['svc']} context: {r[5]}")
         for r in tr:
+            if r[4] == "svc_cancelled" and r[5].get("action") == "none" and not sim.aborting:
+                if any(x[4] == "svc_reg" and x[5]["svc"] == r[5]["svc"] and x[0] < r[0] for x in tr):
+                    rule_ = "C05.ownership" if sc_end[4] == "sc_return" else "C07.ownership"
+                    v(rule_, "service_cancelled_despite_none", f"service task {r[5]['svc']} was started with teardown_action=None (it ends by itself and is waited for) but was cancelled")
             if r[4] == "outer_view" and r[5]["leaks"]:
                 v("C05.ownership", "leaked_to_enclosing_context", f"after the calling context was left the enclosing context holds {r[5]['leaks']}")
                 v("C02.component_parent", "leak_up", f"after the calling context was left the enclosing context holds {r[5]['leaks']}")
@@ -1826,6 +1866,8 @@ class G:
                     w: dict[str, Any] = {"wid": f"w{self.nw}", "t": ti, "name": nm}
                     if rng.random() < 0.12 and not fdur:
                         w["opt"] = True
+                    if rng.random() < 0.15:
+                        w["via"] = "inject"
                     elif self.prop in ("C06", "C05") and isfac and fdur and rng.random() < (0.4 if self.prop == "C06" else 0.25):
                         # this waiter loses patience while the factory is still working
                         w["giveup"] = rng.choice((0.25, 0.5, 1.0))
